@@ -158,7 +158,7 @@ def _pred_values(ctx, p):
 def _ctor_calls(ctx, p):
     A = ctx.A
     cb = A.ctor[0]
-    return [e for e in p.calls() if e.site is not None and ctx.prog.callee_body(e.site) is not None and ctx.prog.callee_body(e.site).path == cb.path]
+    return [e for e in p.calls() if e.site is not None and not e.inlined and ctx.prog.callee_body(e.site) is not None and ctx.prog.callee_body(e.site).path == cb.path]
 
 
 def bu2_validation(ctx, rep, only=None):
@@ -166,7 +166,7 @@ def bu2_validation(ctx, rep, only=None):
     A = ctx.A
     b = A.method("StoreBuilder", "build")
     rep.note_fn(b.path)
-    pe = ctx.paths(b)
+    pe = ctx.paths(b, inline=True)
     rep.stats["paths"] += len(pe.paths)
     rep.check(not pe.truncated, R, "paths-complete", ctx.where(b), "%d paths of build enumerated" % len(pe.paths), "path enumeration truncated")
     n_err = n_ok = 0
